@@ -41,6 +41,17 @@ PROPS = {
         "assumptions": ["serde_json::Value object iteration order (BTreeMap: sorted keys) is what the model's association lists carry; the harness emits them in that order"],
         "trusted_base": [],
     },
+    "C20": {
+        "level_text": "Theorems in Coq about executable recognisers for the five identifier regular expressions of utils/validation.rs: each recogniser is equivalent to a declarative grammar (URI = letter, scheme chars, ':', non-empty newline-free rest; legacy forms as ':'-joins of base58 DIDs, literal markers, colon-free names, versions, sequence numbers), validation = URI or the legacy form of that type, schema validity = issuer id valid and 1..125 distinct names, credential-request validity = exactly one of entropy / prover DID (DID only with a legacy cred-def id, and of DID form). The regex texts and MAX_ATTRIBUTES_COUNT are regenerated from the source on every run and pinned by reflexivity lemmas; the recognisers are tied to the regex engine by running *Id::new / validate / try_from / is_* of all four identifier types, create_schema, Schema::validate, CredentialRequest validation and the issuer API on generated strings (from each grammar, single edits around it, every ASCII byte in every URI position, every forbidden base58 letter at every DID position).",
+        "level_note": "Trusted: Coq kernel, extraction, harness/driver glue, translator. Modelled not verified: the regex crate's matching is represented by structured recognisers (Rust-regex facts used: ^/$ only at text ends, '.' excludes \\n, [^:] includes it); 'issuer outputs validate' is proved for identifiers that entered through checking constructors and are copied (the harness checks the copy on real objects); new_unchecked / serde are opt-outs and are not claimed.",
+        "theorems": ["C20_regex_pins", "C20_max_attributes_pin", "C20_split_colon_spec", "C20_uri_iff", "C20_legacy_did_iff", "C20_legacy_schema_id_iff",
+                     "C20_legacy_cred_def_id_iff", "C20_legacy_rev_reg_id_iff", "C20_validate_iff", "C20_schema_valid_iff", "C20_cred_request_valid_iff",
+                     "C20_issuer_outputs_validate", "C20_transfer_id", "C20_transfer_schema", "C20_transfer_req", "C20_transfer_out"],
+        "rule": "identifier strings: URI pool (every ASCII byte as first / scheme / rest character, newline and non-ASCII placements), the suite's examples, every forbidden base58 letter at every position, strings drawn from each of the four legacy grammars fed to all four validators, and 1-2 random edits of them (replace/delete/insert nasty characters, drop/duplicate fields, wrong markers); schemas of size 0,1,2,124..127,200 with duplicates at several positions and near-duplicates; credential requests over entropy x prover-DID x cred-def-id pools (validate on documents, new through create_credential_request); ids of every object returned by the issuer API. "
+                "non-trivial = all (every case runs at least one regex); distinct = distinct abstract case",
+        "assumptions": ["identifiers are valid UTF-8 (Rust &str); the byte-level reading of the regexes is exact because every literal and class is ASCII"],
+        "trusted_base": [],
+    },
 }
 
 NOTES = "MANIFEST.json is generated by bin/mkmanifest from bin/props.py; see DESIGN.md"
